@@ -33,6 +33,19 @@ class Flow:
         self.agg_defs = defaultdict(list)   # local -> [(bb, idx, stmt)] aggregate definitions
         self._build(include_cleanup)
 
+    def _expand(self, c):
+        """A promoted constant stands for the named items it mentions (closures,
+        statics, consts): expose them as synthetic constants."""
+        out = [c]
+        if c is not None and "promoted" in c and c.get("uneval") == self.fn.d.get("path"):
+            proms = self.fn.d.get("promoted", [])
+            k = c["promoted"]
+            if k < len(proms):
+                for name in proms[k]:
+                    out.append({"ty": c.get("ty", ""), "promoted_item": name, "closure": name, "static": name,
+                                "uneval": name, "synthetic": True})
+        return out
+
     def edge(self, u, v, pure=False):
         if u == v:
             return
@@ -91,7 +104,7 @@ class Flow:
                     else:
                         c = op_const(o)
                         if c is not None:
-                            self.consts[dest].append(c)
+                            self.consts[dest].extend(self._expand(c))
                 if rv["k"] == "agg":
                     self.agg_defs[dest].append((bb, i, s))
                 k = rv["k"]
@@ -121,7 +134,7 @@ class Flow:
                     else:
                         c = op_const(a)
                         if c is not None:
-                            arg_consts.append(c)
+                            arg_consts.extend(self._expand(c))
                 for ai, l in arg_locals:
                     self.edge(l, dest, pure=True)
                 self.consts[dest].extend(arg_consts)
